@@ -386,3 +386,4 @@ def run(ctx):
         return
     run_random_histories(ctx)
     ctx.count('hook_calls', HOOK['calls'])
+    lib.repo_tests_under_monitor(ctx, 'C10', ['parse'])
